@@ -545,10 +545,19 @@ func (x *CommonLex) ConstructToken(
 		}
 	}
 	var b bytes.Buffer
+	if c == xutils.ERR {
+		x.SetError(fmt.Errorf("Invalid UTF-8 input"))
+		return b
+	}
 	add(&b, c)
 
 	for {
 		c = x.Next()
+		if c == xutils.ERR && tokenMatcher(c) {
+			// Never part of a token, whatever the matcher says.
+			x.SetError(fmt.Errorf("Invalid UTF-8 input"))
+			break
+		}
 		if tokenMatcher(c) {
 			// As a sanity check against rogue tokenMatcher functions that fail
 			// to spot EOF and claim a match, trap it here.  It's also rather
